@@ -15,6 +15,7 @@ import shutil
 import tempfile
 
 from mbt import engine
+from drivers import common as _common
 from mbt.engine import enc
 from drivers.common import run_async
 from drivers.docs import chunk_text, pv
@@ -134,7 +135,7 @@ def replay(item):
     with open(fp, "w", encoding="utf-8") as f:
         f.write(text)
     obs = []
-    et = EjectTool()
+    et = _common.tool("eject")
     for mode in MODES:
         for fmt in FORMATS:
             o = {"route": "tool", "mode": mode, "format": fmt, "ok": False, "lossy": "-", "leaves": []}
